@@ -2,6 +2,7 @@ import Bee2V.C12.ModelTm
 import Bee2V.C12.ModelPri
 import Bee2V.Base.Proto
 import Bee2V.C12.DrvVal
+import Bee2V.C12.DrvObj
 /-! C12 driver: line protocol handlers (see docs/C12.md) -/
 namespace Bee2V.C12.Drv
 open Bee2V.C12 Bee2V.Proto
@@ -84,9 +85,15 @@ def priOps : List String := ["primew", "nextw", "sieved", "smooth", "basemod", "
 def handle : List String → String
   | "date" :: args => handleDate args
   | "date3" :: args => handleDate3 args
-  | "W32" :: rest => (DrvVal.handle 32 rest).getD "bad-op"
+  | "W32" :: rest => ((DrvObj.handle 32 rest).orElse (fun _ => DrvVal.handle 32 rest)).getD "bad-op"
+  | ["extend", w, l, q, a, trials, bc, tape] =>
+    match parseNat w with
+    | some W => if W = 32 ∨ W = 64 then DrvObj.handleExtend W [l, q, a, trials, bc, tape] else "wrong-word-size"
+    | none => "bad-op"
+  | ["layout"] => (DrvObj.handle 64 ["layout"]).getD "bad-op"
+  | ["basesize"] => (DrvObj.handle 64 ["basesize"]).getD "bad-op"
   | op :: w :: args =>
-    match DrvVal.handle 64 (op :: w :: args) with
+    match (DrvObj.handle 64 (op :: w :: args)).orElse (fun _ => DrvVal.handle 64 (op :: w :: args)) with
     | some r => r
     | none =>
     if priOps.contains op then
